@@ -9,6 +9,32 @@ TB = ('trusted: clang 14 parser/constant evaluator/CFG builder as driven by tool
       'flags -std=gnu++20 -DNDEBUG -DLOG_LEVEL=0 stand for the release build; ')
 
 CHECKS = {
+    'C01': dict(
+        category='other',
+        text='Partial: structural necessary conditions of exactness over the seven colour-generic generators, both '
+             'instantiations: (M1) every pawn move category is emitted for unpinned pawns and for pinned pawns exactly where '
+             'the pin line allows it, incl. en passant with the horizontal-pin test; (M2) every evasion emission is masked by '
+             'the check mask, double check yields king moves only; (M3) castling needs the right, empty and unattacked path '
+             'tables evaluated by clang equal the rules; (M4) WHITE/BLACK instantiations are mirror images (shift directions, '
+             'ranks, offsets); (M5) the forbidden-square and checker routines cover all six attacker kinds with x-ray through '
+             'the own king; (M6) dispatch, perft driver and list discipline. That each bitboard expression yields exactly the '
+             'legal targets in every position is not decided (rests on C11 for tables); duplicates are not decided.',
+        design_ref='DESIGN.md §3 C01',
+        note=TB + 'legal input position; attack tables as established by C11.',
+        technique='static: category x pin matrix (COVER), dominating-mask rule, TABLE on clang-evaluated constants, mirror-pair agreement'),
+    'C12': dict(
+        category='other',
+        text='Partial: necessary conditions on the KPK retrograde solver and its consumer: (R1) the successor relation is '
+             'exactly king steps of the side to move, the single push for White below rank 7, the double push from rank 2 over a '
+             'square free of both kings (tested before the target is set), side flipped, WIN/DRAW roles, early-better/unknown/'
+             'worse minimax; (R2) getIndex/parse_index bit fields agree, do not overlap, MAX_INDEX and table size follow, writer '
+             'and reader address the same bit; (R3) normalisation flips all three squares together; (R4) the five terminal '
+             'clauses as normalised atom sets; (R5) full sweeps, only UNKNOWN refined, repeat-until-stable, publish WIN bits '
+             'after clearing, single writer; (R6) the evaluator normalises then looks up exactly those squares. Equality of the '
+             'computed table with the game-theoretic values needs the fix-point itself and is not decided.',
+        design_ref='DESIGN.md §3 C12',
+        note=TB + 'conditions are compared as normalised atom sets over the reachable value ranges (pawn ranks 2..7).',
+        technique='static: guard-atom normalisation + dominance rules over the CFG, PACK layout extraction, FILL coverage, who-may-write'),
     'C06': dict(
         category='proof',
         text='Decides the stop-signalling discipline for every schedule by obligations over the whole-program '
